@@ -90,20 +90,24 @@ pub fn run_check(ctx: &Ctx) -> Outcome {
             // ghost bound as configured, through every construction path
             check_2q_quota_grid_for(ctx, &mut out, "C01");
             check_conv(ctx, crate::conv::ConvProp::C01, &mut out, 2000, 40000);
+            check_big(ctx, crate::big::BigProp::C01, &[Kind::Lru, Kind::Seg, Kind::TwoQ, Kind::Arc, Kind::Wtl], &mut out, 4, 60);
         }
         "C02" => {
             check_e1(ctx, Prop::C02, &mut out, 10000, 200000);
             check_conv(ctx, crate::conv::ConvProp::C02, &mut out, 2000, 40000);
+            check_big(ctx, crate::big::BigProp::C02, &[Kind::Lru, Kind::Seg, Kind::TwoQ, Kind::Arc, Kind::Wtl], &mut out, 4, 60);
         }
         "C03" => {
             check_e1(ctx, Prop::C03, &mut out, 12000, 250000);
             check_conv(ctx, crate::conv::ConvProp::C03, &mut out, 2000, 40000);
             check_e1_chaos(ctx, &mut out, 3000, 60000);
+            check_big(ctx, crate::big::BigProp::C03, &[Kind::Lru, Kind::Seg, Kind::TwoQ, Kind::Arc, Kind::Wtl], &mut out, 3, 40);
         }
         "C04" => {
             check_e1(ctx, Prop::C04, &mut out, 12000, 250000);
             check_conv(ctx, crate::conv::ConvProp::C04, &mut out, 2000, 40000);
             check_dropglue(ctx, &mut out, 2000, 40000);
+            check_big(ctx, crate::big::BigProp::C04, &[Kind::Lru, Kind::Seg, Kind::TwoQ, Kind::Arc, Kind::Wtl], &mut out, 3, 40);
         }
         "C05" => {
             check_c05(ctx, &mut out);
@@ -114,6 +118,7 @@ pub fn run_check(ctx: &Ctx) -> Outcome {
             check_e2(ctx, Prop::C06, &[Kind::Lru], &mut out);
             check_ctor_caps_for(ctx, &mut out, "C06");
             check_vtype(ctx, Kind::Lru, &mut out, 3000, 60000);
+            check_big(ctx, crate::big::BigProp::C06, &[Kind::Lru], &mut out, 4, 60);
         }
         "C07" => {
             check_e1(ctx, Prop::C07, &mut out, 12000, 250000);
@@ -153,7 +158,10 @@ pub fn run_check(ctx: &Ctx) -> Outcome {
             check_c18(ctx, &mut out, 2000, 40000);
             check_conv_faults(ctx, &mut out, 1000, 20000);
         }
-        "C13" => check_c13(ctx, &mut out, 8000, 150000),
+        "C13" => {
+            check_c13(ctx, &mut out, 8000, 150000);
+            check_big(ctx, crate::big::BigProp::C13, &[Kind::Lru, Kind::Seg, Kind::TwoQ, Kind::Arc, Kind::Wtl], &mut out, 10, 120);
+        }
         "C16" => {
             check_c16(ctx, &mut out, 8000, 150000);
             check_tinylfu(ctx, crate::e7::E7Prop::C16, &mut out, 4000, 60000, "");
@@ -227,6 +235,18 @@ pub fn replay(prop: &str, engine: &str, case: &Value) -> Result<Option<Violation
         "vtype" => {
             let c: crate::vtype::VCase = serde_json::from_value(case.clone()).map_err(|e| e.to_string())?;
             Ok(crate::vtype::run_vtype(&c).violation)
+        }
+        "big" => {
+            let c: crate::big::BigCase = serde_json::from_value(case.clone()).map_err(|e| e.to_string())?;
+            let p = match prop {
+                "C01" => crate::big::BigProp::C01,
+                "C02" => crate::big::BigProp::C02,
+                "C04" => crate::big::BigProp::C04,
+                "C06" => crate::big::BigProp::C06,
+                "C13" => crate::big::BigProp::C13,
+                _ => crate::big::BigProp::C03,
+            };
+            Ok(crate::big::run_big(&c, p).violation)
         }
         "convd" => {
             let c: crate::conv::ConvCase = serde_json::from_value(case.clone()).map_err(|e| e.to_string())?;
